@@ -1,0 +1,38 @@
+//go:build verif
+
+// Export wrappers for the /verif harness (properties C34, C36): the unexported decision
+// functions of the trust provider and of the signer generator, and the two sentinel errors
+// of activeTRCs. Compiled only with -tags verif.
+
+package trust
+
+import (
+	"context"
+	"crypto/x509"
+
+	"github.com/scionproto/scion/pkg/addr"
+	"github.com/scionproto/scion/pkg/scrypto/cppki"
+)
+
+var (
+	VerifErrNotFound = errNotFound
+	VerifErrInactive = errInactive
+)
+
+// VerifActiveTRCs exposes activeTRCs.
+func VerifActiveTRCs(ctx context.Context, db DB, isd addr.ISD) ([]cppki.SignedTRC, error) {
+	trcs, _, err := activeTRCs(ctx, db, isd)
+	return trcs, err
+}
+
+// VerifFilterVerifiableChains exposes filterVerifiableChains.
+func VerifFilterVerifiableChains(chains [][]*x509.Certificate,
+	trcs []cppki.SignedTRC) [][]*x509.Certificate {
+
+	return filterVerifiableChains(chains, trcs)
+}
+
+// VerifBestChain exposes bestChain.
+func VerifBestChain(trc *cppki.TRC, chains [][]*x509.Certificate) []*x509.Certificate {
+	return bestChain(trc, chains)
+}
